@@ -20,14 +20,14 @@ PROPS = {
                       "children, optionally holds the workers in gate tasks that are released before, after or from inside ~ThreadPool (gate at the destructor's "
                       "hook site), destroys the pool without waiting for anything, and then requires every id's invocation count to be exactly 1 and no body to "
                       "run after the destructor returned. Hook sites in the enqueue / placed-push / hint-clear / worker-park windows are perturbed.",
-        "level_note": "Held-on-what-was-run. Double invocation is additionally an ASan double free; a dropped task's token is freed by the harness after the verdict.",
+        "level_note": "A scripted case parks a worker between its failed central-queue dequeue and the clearing of the non-empty hint while the last running task force-queues a child after the destructor's first drain, so that only the destructor's post-join drain can run it. Held-on-what-was-run. Double invocation is additionally an ASan double free; a dropped task's token is freed by the harness after the verdict.",
         "design_ref": "DESIGN.md §4 C01",
         "rule": "case = (pool size, multiplier, wake mode, producer programs, gate plan, perturbation) from the seeded generator; non-trivial = at least two tasks were handed to the pool; distinct by full spec",
         "required_classes": ["pool0", "pool1-8", "pool9+", "poll", "wake", "gated-dtor", "free", "fut", "futkids", "pool-task-producer", "multi-producer",
-                             "bulk>16", "mult1", "hint-race", "ran:worker", "ran:caller-inline", "ran:pool-dtor"],
+                             "bulk>16", "mult1", "script:dtor-hint-race", "post-join-drain-ran-a-task", "ran:worker", "ran:caller-inline", "ran:pool-dtor"],
         "assumptions": _A,
         "runs": {
-            "quick": [{"config": "plain", "shards": 16, "args": {"n": 400}}, {"config": "tsan", "shards": 16, "args": {"n": 64}}, {"config": "asan", "shards": 16, "args": {"n": 128}}],
+            "quick": [{"config": "plain", "shards": 16, "args": {"n": 400}}, {"config": "tsan", "shards": 16, "args": {"n": 64, "scripted": 8}}, {"config": "asan", "shards": 16, "args": {"n": 128, "scripted": 8}}],
             "thorough": [{"config": "plain", "shards": 16, "seeds": 5}, {"config": "tsan", "shards": 16, "args": {"n": 1500}}, {"config": "asan", "shards": 16, "args": {"n": 3000}}],
         },
     },
@@ -43,7 +43,7 @@ PROPS = {
         "design_ref": "DESIGN.md §4 C02",
         "rule": "case = generated task-set program(s); non-trivial = at least one barrier was checked over at least two tasks; distinct by full spec",
         "required_classes": ["TS", "CTSh", "CTSl", "pool0", "poolN", "owner-pool-task", "owner-external", "recursive", "multi-producer", "tryWait", "wait",
-                             "dtor-barrier", "future", "then", "when_all", "bulk", "fq", "parfor", "ran:waiter", "ran:worker", "wait-with-outstanding"],
+                             "dtor-barrier", "future", "then", "when_all", "bulk", "fq", "parfor", "ring-overflow", "ran:waiter", "ran:worker", "wait-with-outstanding"],
         "assumptions": _A,
         "runs": {
             "quick": [{"config": "plain", "shards": 16, "args": {"n": 480}}, {"config": "tsan", "shards": 16, "args": {"n": 64}}, {"config": "asan", "shards": 16, "args": {"n": 128}}],
